@@ -168,15 +168,23 @@ import numpy as np
 from sasmodels.core import load_model
 from sasmodels.direct_model import call_kernel
 base, wrap = sys.argv[1], sys.argv[2]
+import os
+from sasmodels import custom
+
+def stale(path):
+    keys = [k for k in custom._MODULE_CACHE if os.path.basename(k) == os.path.basename(path)]
+    return bool(custom.need_reload(keys[0] if keys else path))
+
 for line in sys.stdin:
     cmd = json.loads(line)
     if cmd["op"] == "quit":
         break
+    before = [stale(wrap), stale(base)]
     m = load_model(base if cmd["op"] == "load_base" else wrap, dtype="double", platform="dll")
     k = m.make_kernel([np.array([1.0])])
     pars = dict(scale=1.0, background=0.0)
     pars.update(rg=1.0) if cmd["op"] == "load_base" else pars.update(size=1.0)
-    print(json.dumps(float(call_kernel(k, pars)[0]))); sys.stdout.flush()
+    print(json.dumps([float(call_kernel(k, pars)[0])] + before)); sys.stdout.flush()
     k.release()
 """
 WRAP_BASE = ('from numpy import inf\nname = "verif_c17_base"\ntitle = "C17 base"\ndescription = "a"\ncategory = "shape:sphere"\n'
@@ -221,8 +229,10 @@ def run_wrapper(root, idx, ops):
                 proc.stdin.write(json.dumps({"op": op[0]}) + "\n"); proc.stdin.flush()
                 line = proc.stdout.readline()
                 want = float(cur["base"] + 1) if op[0] == "load_base" else float(cur["base"] + cur["wrap"])
-                got = json.loads(line) if line else None
-                obs.append(dict(op=op[0], got=got, want=want, files=dict(cur), error=None if line else proc.stderr.read()[-400:]))
+                got3 = json.loads(line) if line else None
+                got = got3[0] if got3 else None
+                obs.append(dict(op=op[0], got=got, want=want, files=dict(cur), error=None if line else proc.stderr.read()[-400:],
+                                need_reload=got3[1:] if got3 else None))
                 if not line:
                     proc = None
         return dict(ops=[list(o) for o in ops], observed=obs)
@@ -561,6 +571,26 @@ def main(run):
             for i in vals[0]:
                 r = res[i]
                 run.add(Finding("C17:corr", "history %s from %s: observations %s / %d libraries differ from the cache model" % (r["ops"], r["init"], r["observed"], len(r["libs"])), dict(r)))
+    # the dependency bookkeeping model (C17.Nested) against custom.need_reload as observed just before every load of the
+    # wrapper histories: module 0 = the wrapper, module 1 = the base it is built on
+    wok = [wr for wr in wres if all(o_.get("need_reload") is not None for o_ in wr["observed"])]
+    if wok and not run.proof_broken():
+        def nop(o):
+            return "Restart" if o[0] == "fresh" else ("Edit %d 2" % (1 if o[1] == "base" else 0) if o[0] == "edit" else "Load %d" % (1 if o[0] == "load_base" else 0))
+        body = ";\n".join("(%s, %s)" % (coq_list(["(%s)" % nop(o) for o in wr["ops"]], "op"),
+                                        coq_list(["(%s, %s)" % tuple(str(bool(b)).lower() for b in o_["need_reload"]) for o_ in wr["observed"]], "(bool * bool)")) for wr in wok)
+        text = ("From Coq Require Import List Bool.\nImport ListNotations.\nFrom SM Require Import C17.Nested Gen.C17_code.\n"
+                "Eval vm_compute in (check_from code_handoff_always 0 [\n%s\n]).\n" % body)
+        rc, vals, err = common.run_coq_shards([text], run.scratch.sub("coqw"), prefix="c17w")[0]
+        if rc != 0 or not vals:
+            run.add(Finding("corr:C17:nested", "nested-dependency correspondence failed to evaluate: %s" % err[-300:], {"correspondence": "C17.Nested.check_from", "stderr": err[-1500:]}, no_input=True))
+        else:
+            stats["nested_model_traces"] = len(wok)
+            stats["nested_model_decisions"] = sum(len(wr["observed"]) for wr in wok)
+            for i in vals[0]:
+                wr = wok[i]
+                run.add(Finding("C17:corr:nested", "wrapper history %s: custom.need_reload (wrapper, base) before each load was %s - not what the dependency model (C17.Nested) computes" % (
+                    wr["ops"], [o_["need_reload"] for o_ in wr["observed"]]), dict(wr)))
     # library file names: "sas<bits>_<id>_<tag>.so" as C17.Names.lib_basename builds it
     allnames = sorted({tuple(x) for r in res for x in r.get("names", [])})
     stats["library_names"] = len(allnames)
